@@ -71,6 +71,10 @@ def batch(job):
     pfd = None
     if job.get("progress"):
         pfd = os.open(job["progress"], os.O_WRONLY | os.O_CREAT, 0o644)
+    if pfd is not None:
+        from . import kernel as _kernel
+
+        _kernel.SUT_PHASE_HOOK[0] = lambda v: os.pwrite(pfd, struct.pack("<q", v), 8)
     res = {
         "runs": 0,
         "covers": set(),
@@ -93,7 +97,7 @@ def batch(job):
             res["timed_out"] = True
             break
         if pfd is not None:
-            os.pwrite(pfd, struct.pack("<q", i), 0)
+            os.pwrite(pfd, struct.pack("<qq", i, 0), 0)
         if run_timeout:
             faulthandler.dump_traceback_later(run_timeout, exit=True, file=sys.__stderr__)
         tape = Tape(seed=run_seed(job["seed"], job["prop"], leg, i))
